@@ -141,10 +141,15 @@ def generate(g, h):
         for c in h.calls(h.func(client, '_main'), lambda c: h.callname(c) == 'connect'):
             for kw in c.keywords:
                 if kw.arg == 'options':
-                    assert h.callname(kw.value) == 'dict'
-                    for k in kw.value.keywords:
-                        assert isinstance(k.value, ast.Name) and k.value.id == k.arg
-                    return [k.arg for k in kw.value.keywords]
+                    val = kw.value
+                    if isinstance(val, ast.Name):        # built in a local variable first
+                        defs = [a.value for a in assign_in(h.func(client, '_main'), val.id)]
+                        assert len(defs) == 1, val.id
+                        val = defs[0]
+                    assert isinstance(val, ast.Call) and h.callname(val) == 'dict'
+                    for k in val.keywords:
+                        assert isinstance(k.value, ast.Name) and k.value.id == k.arg, (k.arg, ast.unparse(k.value))
+                    return [k.arg for k in val.keywords]
         raise KeyError('options=dict(...)')
     emit('OPTION_KEYS', 'strlist', option_keys)
 
